@@ -465,8 +465,8 @@ class ImagesThatLookSpecial(Part):
         return res
 
 
-class _OverBudget(Exception):
-    pass
+class _OverBudget(BaseException):
+    """Not an Exception: 'except Exception' in the implementation or in helpers must not swallow it."""
 
 
 def within_cpu_budget(seconds, fn):
